@@ -288,7 +288,54 @@ def child_main(wfd: int, rfd: int, scenario: dict, event, clock, inv_no: int, du
     if dumpfile:
         f = open(dumpfile, "w")  # noqa: SIM115
         faulthandler.register(signal.SIGUSR1, file=f, all_threads=True, chain=False)
+
+        def dump_executors(_sig, _frm):
+            # diagnostic only (never an oracle): state of live map/parallel executors when a hang is being diagnosed
+            import gc
+
+            try:
+                from aws_durable_execution_sdk_python.concurrency.executor import ConcurrentExecutor, TimerScheduler
+
+                for o in gc.get_objects():
+                    if isinstance(o, ConcurrentExecutor):
+                        f.write("EXECUTOR %s event_set=%s suspend_exc=%r counters=(ok=%s fail=%s total=%s min=%s) states=%s\n" % (
+                            type(o).__name__, o._completion_event.is_set(), o._suspend_exception, o.counters.success_count, o.counters.failure_count,
+                            o.counters.total_tasks, o.counters.min_successful,
+                            [(e.index, e.status.value, e.suspend_until, None if e._future is None else (e._future.done(), e._future.cancelled(), e._future.running())) for e in o.executables_with_state]))
+                    elif isinstance(o, TimerScheduler):
+                        f.write("SCHEDULER pending=%s shutdown=%s now=%s\n" % ([(t, c, e.index, e.status.value) for t, c, e in o._pending_resumes], o._shutdown.is_set(), clock.now()))
+                f.flush()
+            except Exception as e:  # noqa: BLE001
+                f.write("EXECUTOR-DUMP-FAILED %r\n" % (e,))
+                f.flush()
+
+        signal.signal(signal.SIGUSR2, dump_executors)
     opts = scenario.get("opts", {})
+    # diagnostics (never oracles): exceptions that kill a thread or are swallowed by a future's done-callback machinery
+    import concurrent.futures._base as _cfb
+    import traceback as _tb
+
+    def _thread_exc(args):
+        try:
+            RT.post("thread_exc", where="thread:" + str(getattr(args.thread, "name", "?")), cls=type(args.exc_value).__name__,
+                    msg=str(args.exc_value)[:200], tb="".join(_tb.format_tb(args.exc_traceback))[-900:])
+        except Exception:  # noqa: BLE001
+            pass
+
+    threading.excepthook = _thread_exc
+
+    class _CbLog:
+        def exception(self, msg, *a, **k):
+            et, ev, tb = sys.exc_info()
+            try:
+                RT.post("thread_exc", where="future-callback", cls=getattr(et, "__name__", "?"), msg=str(ev)[:200], tb="".join(_tb.format_tb(tb))[-900:])
+            except Exception:  # noqa: BLE001
+                pass
+
+        def __getattr__(self, name):
+            return lambda *a, **k: None
+
+    _cfb.LOGGER = _CbLog()
     clock_report = install_clock(clock, opts.get("poll_div", clock.k))
     RT.post("clock", report=clock_report)
     from dw import targeted
